@@ -619,6 +619,65 @@ theorem source_laplacian_triangles_flat (U : Rat → Cpx) (hU0 : U 0 = cone) (or
   rcases it with ⟨i, t1, t2⟩
   cases t1 <;> cases t2 <;> simp [hU0]
 
+/-! ## round 8: `cotan_edge_diagonal`, the flat connection on vertices, the options the constructors read -/
+
+/-- the vertex whose cotangent is taken is the THIRD vertex of the face: for two distinct positions of a triangle, `3 - iu - iv` is the remaining one -/
+theorem source_cotan_opposite_slot : ∀ iu < 3, ∀ iv < 3, iu ≠ iv →
+    C18S.oppositeSlot iu iv < 3 ∧ C18S.oppositeSlot iu iv ≠ iu ∧ C18S.oppositeSlot iu iv ≠ iv := by decide
+
+/-- interior edge with a non-degenerate positive cotangent sum: the (inverse) weight is `1/(cot a + cot b)`, positive and at most `1e8` -/
+theorem source_cotan_edge_weight_regular (c1 c2 : Rat) (h : (1 : Rat) / 100000000 ≤ c1 + c2) :
+    C18S.cotanEdgeWeight true (some c1) (some c2) = 1 / (c1 + c2) ∧ 0 < C18S.cotanEdgeWeight true (some c1) (some c2)
+      ∧ C18S.cotanEdgeWeight true (some c1) (some c2) ≤ 100000000 := by
+  have hpos : (0 : Rat) < c1 + c2 := lt_of_lt_of_le (by norm_num) h
+  have hr : ¬ rabs (c1 + c2) < (1 : Rat) / 100000000 := by
+    unfold rabs
+    rw [if_neg (not_lt.mpr (le_of_lt hpos))]
+    exact not_lt.mpr h
+  have hw : C18S.cotanEdgeWeight true (some c1) (some c2) = 1 / (c1 + c2) := by
+    unfold C18S.cotanEdgeWeight
+    simp only [if_true]
+    rw [if_neg hr]
+  refine ⟨hw, ?_, ?_⟩
+  · rw [hw]; exact div_pos one_pos hpos
+  · rw [hw, div_le_iff₀ hpos]; nlinarith
+
+/-- degenerate sum: the weight is capped at `1e8` instead of dividing by (almost) zero; border side: its cotangent counts as 0 -/
+theorem source_cotan_edge_weight_degenerate (c1 c2 : Option Rat) (h : rabs (c1.getD 0 + c2.getD 0) < (1 : Rat) / 100000000) :
+    C18S.cotanEdgeWeight true c1 c2 = 100000000 := by
+  unfold C18S.cotanEdgeWeight
+  cases c1 <;> cases c2 <;> simp only [Option.getD] at h <;> simp only [if_true] <;> rw [if_pos h]
+
+/-- the diagonal handed to the translated `laplacian_triangles` as its row weights `dw` IS this function, edge by edge -/
+theorem source_laplacian_triangles_row_weight (edges : List (Option Rat × Option Rat)) (ie : Nat) :
+    C18S.nablaRowWeight true (fun e => (C18S.cotanEdgeDiagonal true edges).getD e 0) ie
+      = ((edges.map (fun e => C18S.cotanEdgeWeight true e.1 e.2)).getD ie 0) := rfl
+
+theorem csmul_cone (v : Rat) : csmul v cone = ofReal v := by unfold csmul cone ofReal; ext <;> simp
+
+/-- **flat connection reduces to the scalar operator, at source level (vertices)**: when reversing an edge turns its direction angle by half a turn (up to
+whole turns) — which is what `FlatConnectionVertices.transport` = `arctan2` of the planar edge direction does — every phase `order·(t_ij − t_ji − π)` is a whole
+number of turns, `U` of it is 1, and the triplets of the connection branch ARE the triplets of the scalar branch -/
+theorem source_laplacian_vertices_flat (U : Rat → Cpx) (hU : UnitContract U) (hU0 : U 0 = cone) (order : Nat) (cotan : Bool)
+    (faces : List (Nat × Nat × Nat × Nat)) (cot : Nat → Nat → Rat) (dir : Nat → Nat → Rat)
+    (hflat : ∀ i j, ∃ k : Int, C18S.flatVertsTransport dir i j - C18S.flatVertsTransport dir j i - 1 / 2 = (k : Rat)) :
+    C18S.laplacianTriplets U order cotan true faces cot (C18S.flatVertsTransport dir)
+      = C18S.laplacianTriplets U order cotan false faces cot (C18S.flatVertsTransport dir) := by
+  have hphase : ∀ i j, U ((order : Rat) * ((C18S.flatVertsTransport dir i j - C18S.flatVertsTransport dir j i) - (1 : Rat) / 2)) = cone := by
+    intro i j
+    obtain ⟨k, hk⟩ := hflat i j
+    rw [hk]
+    have : (order : Rat) * (k : Rat) = 0 + (((order : Int) * k : Int) : Rat) := by push_cast; ring
+    rw [this, hU.period, hU0]
+  unfold C18S.laplacianTriplets
+  simp only [List.foldl_cons, List.foldl_nil, if_true, Bool.false_eq_true, if_false, hphase, csmul_cone]
+
+/-- every option the harness passes explicitly (so that no default is quantified over) is an option the constructors read -/
+theorem source_ctor_options_cover_harness :
+    (∀ o ∈ ["use_cotan", "n_smooth", "smooth_attach_weight", "custom_features"], o ∈ C18S.ctorOptionsFaces.map Prod.fst) ∧
+    (∀ o ∈ ["use_cotan", "n_smooth", "smooth_attach_weight", "custom_features", "cad_correction"], o ∈ C18S.ctorOptionsVerts.map Prod.fst) ∧
+    "order" ∈ C18S.ctorOptionsFacesPositional ∧ "order" ∈ C18S.ctorOptionsVertsPositional := by decide
+
 /-! ## non-vacuity -/
 section examples
 /-- a toy `Num`: exact moduli on the few values used below; the "solver" of a 1×1 unit system -/
@@ -663,6 +722,8 @@ example : C18S.connVertsTransport 1 (fun _ => [2, 1]) (fun _ => false) (fun _ =>
 example : C18S.connVertsRingFeature (fun _ => 1) (fun _ v => if v = 5 then some (1 / 4) else some (3 / 4)) 0 (1 / 2) [5, 6] (fun _ _ => 0) 0 0 6
     + ((3 : Rat) / 4 * (1 / 2)) / 1 = 1 / 2 := by decide +kernel
 example : C18S.defectSumsVerts 3 [0, 1, 2, 0, 2, 1] (fun i => (i : Rat)) = [3, 6, 6] := by decide +kernel
+example : C18S.cotanEdgeDiagonal true [(some 1, some 1), (some 1, none), (some 0, some 0)] = [1 / 2, 1, 100000000] := by decide +kernel
+example : C18S.cotanEdgeWeight false (some 1) none = 1 := by decide +kernel
 end examples
 
 end Mouette.Props.C18Source
